@@ -207,14 +207,21 @@ def r4_context_siblings(ck, cx):
             annotate(p)
             conds = tuple(sorted((U(ev._sub), ev.a) for ev in p.ev if ev.kind == 'cond'))
             for ev in p.ev:
-                if ev.kind == 'call' and callee_name(ev.node) == name and isinstance(ev.node.func.value, ast.Subscript):
+                if ev.kind == 'call' and callee_name(ev.node) == name and ev.frame.fid == 0 and isinstance(ev.node.func, ast.Attribute):
                     sub = ev._sub
+                    recv = sub.func.value
+                    if isinstance(recv, ast.Call):
+                        inl = cx.pure_inline_call(recv, f.mod, c)       # a private block-lookup helper
+                        if inl is not None:
+                            recv = inl
+                    if not isinstance(recv, ast.Subscript):
+                        continue
                     a = sub.args[0] if sub.args else None
                     try:
                         off = nz.norm(a) - Poly.atom(f.params[2])
                     except (NotInt, TypeError):
                         off = 'opaque'
-                    rows.add((conds, U(sub.func.value).replace(f.params[1], 'FX'), str(off)))
+                    rows.add((conds, U(recv).replace(f.params[1], 'FX'), str(off)))
         summ[name] = rows
     ref = summ['validate']
     for name in ('getValues', 'setValues'):
